@@ -102,10 +102,12 @@ class Renderer:
     """Zn text of a program. rng=None gives the canonical layout; with an rng it picks synonyms and
     redundant braces at random (layout never changes the tree)."""
 
-    def __init__(self, rng=None):
+    def __init__(self, rng=None, decorate=None):
         self.rng = rng
+        self.decorate = decorate   # an rng: insert comment lines (single- and multi-line) between statements
         self.lines = []
-        self.line_of = {}          # id(stmt tuple) -> 0-based line index
+        self.nlines = 0            # physical lines emitted so far
+        self.line_of = {}          # id(stmt tuple) -> 0-based physical line index
 
     def pick(self, opts):
         if self.rng is None or len(opts) == 1:
@@ -215,6 +217,7 @@ class Renderer:
 
     def emit(self, ind, text):
         self.lines.append("    " * ind + text)
+        self.nlines += 1 + text.count("\n")
 
     def block(self, ind, stmts):
         for s in stmts:
@@ -229,7 +232,15 @@ class Renderer:
             self.block(ind + 1, cb)
 
     def stmt(self, ind, s):
-        self.line_of[id(s)] = len(self.lines)
+        if self.decorate is not None and self.decorate.random() < 0.25:
+            k = self.decorate.random()
+            if k < 0.5:
+                self.emit(ind, "注：一行注释")
+            elif k < 0.8:
+                self.emit(ind, "注：“多行\n注释”")
+            else:
+                self.emit(0, "")
+        self.line_of[id(s)] = self.nlines
         k = s[0]
         if k == "SDecl":
             pairs = s[1]
@@ -292,12 +303,13 @@ class Renderer:
     def program(self, prog):
         """prog = (inputs, body, catches)"""
         self.lines = []
+        self.nlines = 0
         self.exec_block(0, prog[0], prog[1], prog[2])
         return "\n".join(self.lines) + "\n"
 
 
-def render(prog, rng=None):
-    r = Renderer(rng)
+def render(prog, rng=None, decorate=None):
+    r = Renderer(rng, decorate)
     return r.program(prog), r
 
 
@@ -484,13 +496,13 @@ def enc_go_run(o, cls_ids):
 
 
 def compare_run(model, impl):
-    """model: list of int lists [head, final, line1, ...] from Coq; impl: enc_go_run output.
+    """model: list of int lists [head, final, chain, line1, ...] from Coq; impl: enc_go_run output.
     Returns None when they agree, else a short description."""
     if "abnormal" in impl:
         if model[0][0] == 8 and model[0][1] < 900 and impl["abnormal"] == "crash":
             return None        # the model predicts this Go panic (property C10 reports it)
         return "implementation %s" % impl["abnormal"]
-    mhead, mlines = model[0], model[2:]
+    mhead, mlines = model[0], model[3:]
     ihead, ilines = impl["head"], impl["display"]
     # display: a model line [-1] is a line the model does not render (wildcard)
     if len(mlines) != len(ilines):
